@@ -39,13 +39,13 @@ def run(ctx):
     xref = cc.xref_probe(e) if th else None
 
     # 2. scenarios
-    scripts = cc.tlc_scripts(e, "C03_gen.cfg", 1500 if th else 200, "tlc")
+    scripts = cc.tlc_scripts(e, "C03_gen.cfg", 1500 if th else 300, "tlc")
     mx = e.matrix(e.shapes, cc.PAIRS, 12 if th else 5, ["random", "fifo", "ungated"], "mx", full=th)
     keyf = [lambda s: (s["shape"], s["pair"]), lambda s: (s["shape"], cc.optsig(s)),
             lambda s: (s["shape"], s["headdigest"], s["refapi_src"], s["refapi_tgt"], s["mount"]),
             lambda s: (s["shape"], s["tag0"], bool(s["init"])), lambda s: (s["pair"], s["mode"]),
             lambda s: (s["shape"], s.get("bydigest", 0), s.get("tgtbydigest", 0))]
-    mx = cc.cover_sample(rng, mx, 14000 if th else 1100, keyf)
+    mx = cc.cover_sample(rng, mx, 14000 if th else 1800, keyf)
     # the seeded-candidate classes: a (sub)index the target already holds + referrers below it; a foreign
     # layer whose url answers
     extra = []
